@@ -118,7 +118,11 @@ func (t *imp) block(ss []ast.Stmt, topLevel bool) string {
 			sb.WriteString(t.assign(s))
 		case *ast.IfStmt:
 			if s.Init != nil {
-				return t.fail("unsupported if form")
+				as, ok := s.Init.(*ast.AssignStmt)
+				if !ok {
+					return t.fail("unsupported if form")
+				}
+				sb.WriteString(t.assign(as))
 			}
 			els := t.res
 			if s.Else != nil {
